@@ -39,7 +39,7 @@ def ladder_cdc(k, kind: str, scale: float, R0: float) -> str:
     s = f"R{{R={R0!r}}}" if R0 else ""
     for i in (range(k) if isinstance(k, int) else k):
         R, t = RS[i] * scale, TAUS[i]
-        if kind == "RC":
+        if kind == "RC" or (kind == "mixedQC" and i % 2 == 1) or (kind == "mixedCQ" and i % 2 == 0):
             s += f"(R{{R={R!r}}}C{{C={t / R!r}}})"
         else:
             n = NS_RQ[i]
@@ -132,6 +132,13 @@ def run_case(case: dict, st=None) -> Tuple[List[dict], str]:
                 r = st["drt"](d, method="mrq-fit", circuit=c2, num_procs=1)
             tau, g = sorted_drt(*r.get_drt_data(), np)
             total = float(np.trapezoid(g, np.log(tau)))
+            tp = [float(x) for x in r.get_peaks()[0]]
+            for t in taus:
+                ratio = min((max(p_ / t, t / p_) for p_ in tp), default=float("inf"))
+                if ratio > 1.15:
+                    viol("mrq-fit|no-peak-at-RC", f"m(RQ)fit: no peak within 15 % of the time constant {t:g} s of a generating element (nearest peak is off by a factor {ratio:.3g})",
+                         f"peaks={sorted(tp)} generating={taus} kind={case['kind']} k={k} scale={case['scale']} exact_fit={case.get('exact_fit')}")
+                    break
             if abs(total / sum(Rs) - 1) > 0.02:
                 viol("mrq-fit|area-is-not-the-polarisation-resistance", f"m(RQ)fit: gamma integrates to {total:.6g}, the polarisation resistance is {sum(Rs):.6g} (off by {abs(total / sum(Rs) - 1) * 100:.1f} %)",
                      f"k={k} scale={case['scale']} exact_fit={case.get('exact_fit')}")
@@ -215,6 +222,9 @@ def cases(thorough: bool) -> List[dict]:
     for k, scale in itertools.product((1, 2, 3) if not thorough else (1, 2, 3, 4), scales):
         out.append({"part": "mrq-fit", "k": k, "scale": scale, "ppd": 10, "kind": "RQ", "exact_fit": True})
         out.append({"part": "mrq-fit", "k": k, "scale": scale, "ppd": 10, "kind": "RC", "exact_fit": True})   # (RC) elements: Gaussian branch
+        if k >= 2:
+            out.append({"part": "mrq-fit", "k": k, "scale": scale, "ppd": 10, "kind": "mixedQC", "exact_fit": True})   # (RQ) before (RC)
+            out.append({"part": "mrq-fit", "k": k, "scale": scale, "ppd": 10, "kind": "mixedCQ", "exact_fit": True})
         if thorough or k <= 2:
             out.append({"part": "mrq-fit", "k": k, "scale": scale, "ppd": 10, "kind": "RQ", "exact_fit": False})
     for method in ("tr-nnls", "lm", "tr-nnls-auto"):
@@ -233,7 +243,7 @@ def run(ctx) -> None:
                 "decade x TR-NNLS {real, imaginary} x lambda {1e-3, suggested, L-curve}; the Loewner method on the same RC ladders without series "
                 "resistance; m(RQ)fit with an exact fit passed in and through the real fitting path from perturbed start values; scalings |Z| x "
                 "{2^10, 1e-2}, f x {2^10, 1e2}. Oracles: gamma >= 0, area = R_pol (2 % RC / 12 % RQ), peaks within one grid step of R*C (RQ: "
-                "factor 2.5), Loewner pairs exact to 1e-5 and no inductive branch, m(RQ)fit total area = R_pol (2 %) and per-element area by superposition = R_k (5 %), incl. (RC) elements (Gaussian branch), scaling laws (1e-6; "
+                "factor 2.5), Loewner pairs exact to 1e-5 and no inductive branch, m(RQ)fit total area = R_pol (2 %) and per-element area by superposition = R_k (5 %), incl. (RC) elements (Gaussian branch) and mixed (RQ)/(RC) ladders in both orders, scaling laws (1e-6; "
                 "1e-3 with automatic lambda). Calls that raise are counted and left to C18.")
     ctx.exhaustive = True
     ctx.assumptions = ["tolerances calibrated on the unchanged tree (DESIGN C13) and frozen"]
